@@ -64,7 +64,19 @@ pub fn c02(out: &mut Out, ex: &mut Exec, seed: u64, thorough: bool, check_spans:
         // every fourth program uses labels with non-ASCII letters (not in the span-checking variant: finding F21 has its own stream)
         if !check_spans { NON_ASCII_LABELS.with(|c| c.set(i % 4 == 3)); }
         let mut stmts = gen_single(&mut rng, 14, true);
-        let nf = match i % 5 { 0 => 0, 1 | 2 | 3 => 1, _ => 2 + rng.below(2) };
+        let mut nf = match i % 5 { 0 => 0, 1 | 2 | 3 => 1, _ => 2 + rng.below(2) };
+        // a name both declared `.external` and defined at x0000 is bound to one address only (an external declaration
+        // counts as address 0): well-formed, in either order of declaration and definition
+        if i % 29 == 11 {
+            let name = label_name(&mut rng);
+            let ext = GStmt { labels: vec![], mnem: ".external".into(), ops: vec![Op::Lbl(if rng.bool() { name.clone() } else { name.to_uppercase() })], size: 0 };
+            let mut first = gen_instr(&mut rng, &[]); first.labels.push(name.clone());
+            let mut blk = vec![GStmt { labels: vec![], mnem: ".orig".into(), ops: vec![Op::ImmU(0)], size: 0 }, first];
+            for _ in 0..rng.below(4) { blk.push(gen_instr(&mut rng, &[])); }
+            blk.push(GStmt { labels: vec![], mnem: ".end".into(), ops: vec![], size: 0 });
+            stmts = if rng.bool() { let mut v = vec![ext]; v.extend(blk); v } else { blk.push(ext); blk };
+            nf = 0; out.hist.hit("external_and_defined_at_zero");
+        }
         let mut faults = vec![]; for _ in 0..nf { faults.push(inject_fault(&mut rng, &mut stmts)); }
         let l = layout(&stmts);
         let text = render(&mut rng, &stmts);
